@@ -1,9 +1,14 @@
 package prog
 
 import (
-	"github.com/yorkie-team/yorkie/pkg/document"
-	"github.com/yorkie-team/yorkie/pkg/document/operations"
+	"fmt"
+	"sort"
 	"sync"
+
+	"github.com/yorkie-team/yorkie/pkg/document"
+	"github.com/yorkie-team/yorkie/pkg/document/crdt"
+	"github.com/yorkie-team/yorkie/pkg/document/operations"
+	"github.com/yorkie-team/yorkie/pkg/document/time"
 )
 
 // Exclusions by construction for the open entries of /verif/known_findings.json.
@@ -407,6 +412,19 @@ func GuardF49(d *document.Document, s Step) (Step, string) {
 // states, so such an undo/redo is only executed when nobody collects garbage or
 // every attached replica has no garbage left at all (all re-create alike).
 func GuardF33(r *Runner) Guard {
+	// Harness-side record of the physical neighbours every tree node had when
+	// the editing replica first saw it removed by one of its own edits (what
+	// upstream captures as the removed run's boundary anchors). Kept per
+	// replica and node id; the guard compares the neighbours at undo time with
+	// this record instead of trusting the anchors inside the operation.
+	track := &treeAnchorTrack{seen: map[string]*treeAnchors{}}
+	prevOnEdit := r.OnEdit
+	r.OnEdit = func(r *Runner, p *Peer) {
+		track.observe(p)
+		if prevOnEdit != nil {
+			prevOnEdit(r, p)
+		}
+	}
 	return func(d *document.Document, s Step) (Step, string) {
 		if r.P.Cfg.ClientNoGC {
 			return s, ""
@@ -427,11 +445,402 @@ func GuardF33(r *Runner) Guard {
 		if !restores {
 			return s, ""
 		}
+		garbage := false
 		for _, q := range r.Peers {
 			if q.Attached && q.D.GarbageLen() > 0 {
-				return Step{}, "F33"
+				garbage = true
 			}
 		}
+		if !garbage {
+			return s, ""
+		}
+		// Replicas are in different purge states. The known defect needs the
+		// re-created content to be anchored on something that is NOT its
+		// physical neighbour; where the anchor the ladder will choose on every
+		// purged replica is a live, physically adjacent piece of the same
+		// insertion, re-creation and in-place revival coincide and the step
+		// is executed.
+		for _, h := range undoTop(d, s) {
+			switch op := h.Op.(type) {
+			case *operations.Edit:
+				// the direction decides which span set is revived
+				revive := op.RestoreSpans()
+				if op.RestoreMode() == crdt.RestoreModeRetombstone {
+					revive = op.RetombstoneSpans()
+				}
+				if len(revive) > 0 && !f33TextAnchorsAdjacent(d, op.ParentCreatedAt(), revive) {
+					return Step{}, "F33"
+				}
+			case *operations.TreeEdit:
+				revive := op.RestoreSpans()
+				if op.RestoreMode() == crdt.RestoreModeRetombstone {
+					revive = op.RetombstoneSpans()
+				}
+				if len(revive) > 0 && !f33TreeAnchorsAdjacent(d, op.ParentCreatedAt(), revive, track.forDoc(r, d)) {
+					return Step{}, "F33"
+				}
+			}
+		}
+		r.Ev["F33_region_executed_adjacent_live_anchor"]++
 		return s, ""
+	}
+}
+
+// f33TextAnchorsAdjacent evaluates, on the undoing replica (which must still
+// hold the tombstones), the trigger of F33 for a restore-mode text Edit: for
+// every insertion whose characters are revived, the run of tombstoned pieces is
+// physically contiguous and its neighbour(s) of the same insertion - the
+// anchors upstream's re-creation ladder resolves first (piece covering the
+// run's end, else nearest piece left of its start) - are live and physically
+// adjacent. Anything else (other anchors, partial runs, pieces already purged
+// on this replica) counts as the trigger.
+func f33TextAnchorsAdjacent(d *document.Document, parent *time.Ticket, revive []*crdt.RestoreSpan) bool {
+	tx, ok := d.InternalDocument().Root().FindByCreatedAt(parent).(*crdt.Text)
+	if !ok || tx == nil {
+		return false
+	}
+	type piece struct {
+		key      string
+		off, n   int
+		dead     bool
+		physical int
+	}
+	var all []piece
+	for i, nd := range tx.Nodes() {
+		all = append(all, piece{key: nd.ID().CreatedAt().Key(), off: nd.ID().Offset(), n: nd.Value().Len(), dead: nd.RemovedAt() != nil, physical: i})
+	}
+	// spans per insertion, in offset order
+	type rng struct{ a, b int }
+	byIns := map[string][]rng{}
+	var order []string
+	for _, sp := range revive {
+		k := sp.CreatedAt.Key()
+		if _, seen := byIns[k]; !seen {
+			order = append(order, k)
+		}
+		byIns[k] = append(byIns[k], rng{sp.Start, sp.End})
+	}
+	for _, k := range order {
+		rs := byIns[k]
+		sort.Slice(rs, func(i, j int) bool { return rs[i].a < rs[j].a })
+		for i := 1; i < len(rs); i++ {
+			if rs[i].a != rs[i-1].b {
+				return false // two separate runs of one insertion
+			}
+		}
+		a, b := rs[0].a, rs[len(rs)-1].b
+		var run []piece
+		leftExists, rightExists := false, false
+		rightmost := -1
+		for _, pc := range all {
+			if pc.key != k {
+				continue
+			}
+			switch {
+			case pc.off+pc.n <= a:
+				leftExists = true
+			case pc.off >= b:
+				rightExists = true
+				rightmost = max(rightmost, pc.off)
+			case pc.off >= a && pc.off+pc.n <= b:
+				run = append(run, pc)
+			default:
+				return false // a piece straddles the boundary of the revived range
+			}
+		}
+		if len(run) == 0 {
+			return false // already purged here too: this replica re-creates as well
+		}
+		sort.Slice(run, func(i, j int) bool { return run[i].off < run[j].off })
+		live := 0
+		cover := a
+		for i, pc := range run {
+			if pc.off != cover || (i > 0 && pc.physical != run[i-1].physical+1) {
+				return false // hole in the run, or something sits between its pieces
+			}
+			cover = pc.off + pc.n
+			if !pc.dead {
+				live++
+			}
+		}
+		if cover != b {
+			return false
+		}
+		if live == len(run) {
+			continue // nothing to revive for this insertion
+		}
+		if live > 0 {
+			return false
+		}
+		first, last := run[0], run[len(run)-1]
+		lOK := first.physical > 0 && all[first.physical-1].key == k && !all[first.physical-1].dead &&
+			all[first.physical-1].off+all[first.physical-1].n == a
+		sOK := last.physical+1 < len(all) && all[last.physical+1].key == k && !all[last.physical+1].dead &&
+			all[last.physical+1].off == b
+		switch {
+		case rightExists && !sOK:
+			return false
+		case rightExists && len(rs) > 1 && leftExists && !lOK:
+			return false
+		case rightExists && len(rs) > 1 && !leftExists && rightmost != b:
+			return false // the first fragment would be placed before the rightmost piece, which is not the neighbour
+		case !rightExists && !(leftExists && lOK):
+			return false
+		}
+	}
+	return true
+}
+
+// f33TreeAnchorsAdjacent is the tree counterpart of f33TextAnchorsAdjacent,
+// evaluated on the undoing replica, which must still hold every node the
+// operation revives. Upstream's re-creation ladder (Tree.recreateFromSpan)
+// resolves, in this order: a piece of the same text insertion right after /
+// right before the range, the left boundary sibling captured when the node was
+// removed, the captured right boundary sibling. The step is executed only when
+// the anchor that ladder will pick on a replica that purged the node is live
+// and is the node's physical neighbour here; everything else (other rungs,
+// anchors that are tombstones, nodes already purged here, element nodes whose
+// children are not all part of the same revival) counts as the trigger.
+func f33TreeAnchorsAdjacent(d *document.Document, parent *time.Ticket, revive []*crdt.TreeRestoreSpan, recorded func(n *crdt.TreeNode) *treeAnchors) bool {
+	tr, ok := d.InternalDocument().Root().FindByCreatedAt(parent).(*crdt.Tree)
+	if !ok || tr == nil {
+		return false
+	}
+	floor := func(id *crdt.TreeNodeID) *crdt.TreeNode {
+		if id == nil {
+			return nil
+		}
+		k, n := tr.NodeMapByID.Floor(id)
+		if n == nil || k.CreatedAt.Compare(id.CreatedAt) != 0 {
+			return nil
+		}
+		return n
+	}
+	exact := func(id *crdt.TreeNodeID) *crdt.TreeNode {
+		n := floor(id)
+		if n == nil || !n.ID().Equal(id) {
+			return nil
+		}
+		return n
+	}
+	revived := map[*crdt.TreeNode]bool{} // nodes this operation brings back (they exist everywhere once it has run up to them)
+	sibs := func(n *crdt.TreeNode) (all []*crdt.TreeNode, idx int) {
+		if n.Index.Parent == nil {
+			return nil, -1
+		}
+		idx = -1
+		for i, c := range n.Index.Parent.Children(true) {
+			all = append(all, c.Value)
+			if c.Value == n {
+				idx = i
+			}
+		}
+		return all, idx
+	}
+	usable := func(n *crdt.TreeNode) bool { return n != nil && (!n.IsRemoved() || revived[n]) }
+	for _, sp := range revive {
+		if sp.ParentID == nil {
+			return false
+		}
+		par := exact(sp.ParentID)
+		if !usable(par) {
+			return false
+		}
+		if !sp.IsText {
+			n := exact(sp.ID)
+			if n == nil || n.Index.Parent == nil || n.Index.Parent.Value != par {
+				return false
+			}
+			if !n.IsRemoved() {
+				continue
+			}
+			all, idx := sibs(n)
+			rec := recorded(n)
+			switch {
+			case rec == nil:
+				return false
+			case rec.left != nil:
+				l := floor(rec.left)
+				if !usable(l) || idx < 1 || all[idx-1] != l {
+					return false
+				}
+			case rec.right != nil:
+				rr := floor(rec.right)
+				if !usable(rr) || idx < 0 || idx+1 >= len(all) || all[idx+1] != rr {
+					return false
+				}
+			default:
+				return false
+			}
+			// every child of the element must come back with it
+			want := map[string]bool{}
+			for _, other := range revive {
+				if other.ParentID != nil && other.ParentID.Equal(sp.ID) {
+					want[other.ID.CreatedAt.Key()] = true
+				}
+			}
+			for _, c := range n.Index.Children(true) {
+				if !want[c.Value.ID().CreatedAt.Key()] {
+					return false
+				}
+			}
+			revived[n] = true
+			continue
+		}
+		// text: the pieces of [start, end) on this replica
+		start, end := sp.ID.Offset, sp.ID.Offset+sp.Length
+		var run []*crdt.TreeNode
+		for probe := end - 1; probe >= start; {
+			n := floor(&crdt.TreeNodeID{CreatedAt: sp.ID.CreatedAt, Offset: probe})
+			if n == nil || !n.IsText() || n.ID().Offset+n.Length() <= probe {
+				return false // (partly) purged here as well
+			}
+			if n.ID().Offset < start || n.ID().Offset+n.Length() > end {
+				return false // a piece straddles the range
+			}
+			run = append([]*crdt.TreeNode{n}, run...)
+			probe = n.ID().Offset - 1
+		}
+		if len(run) == 0 {
+			return false
+		}
+		dead := 0
+		for i, n := range run {
+			if n.Index.Parent == nil || n.Index.Parent.Value != par {
+				return false
+			}
+			if n.IsRemoved() {
+				dead++
+			}
+			if i > 0 {
+				all, idx := sibs(n)
+				if idx < 1 || all[idx-1] != run[i-1] {
+					return false // something sits between the pieces
+				}
+			}
+		}
+		if dead == 0 {
+			continue
+		}
+		if dead != len(run) {
+			return false
+		}
+		all, first := sibs(run[0])
+		_, last := sibs(run[len(run)-1])
+		succ := exact(&crdt.TreeNodeID{CreatedAt: sp.ID.CreatedAt, Offset: end})
+		var pred *crdt.TreeNode
+		if start > 0 {
+			pred = floor(&crdt.TreeNodeID{CreatedAt: sp.ID.CreatedAt, Offset: start - 1})
+		}
+		switch {
+		case succ != nil:
+			if !succ.IsText() || !usable(succ) || succ.Index.Parent == nil || succ.Index.Parent.Value != par || last+1 >= len(all) || all[last+1] != succ {
+				return false
+			}
+		case pred != nil:
+			if !pred.IsText() || !usable(pred) || pred.Index.Parent == nil || pred.Index.Parent.Value != par || first < 1 || all[first-1] != pred {
+				return false
+			}
+		default:
+			// boundary anchors: the neighbours recorded when the run was removed
+			recL, recR := recorded(run[0]), recorded(run[len(run)-1])
+			switch {
+			case recL == nil || recR == nil:
+				return false
+			case recL.left != nil:
+				l := floor(recL.left)
+				if !usable(l) || l.Index.Parent == nil || l.Index.Parent.Value != par || first < 1 || all[first-1] != l {
+					return false
+				}
+			case recR.right != nil:
+				rr := floor(recR.right)
+				if !usable(rr) || rr.Index.Parent == nil || rr.Index.Parent.Value != par || last+1 >= len(all) || all[last+1] != rr {
+					return false
+				}
+			default:
+				return false
+			}
+		}
+		for _, n := range run {
+			revived[n] = true
+		}
+	}
+	return true
+}
+
+// treeAnchors are the physical neighbours of a tree node at the moment it was
+// removed: left as the id of the neighbour's LAST character (so that later
+// splits of a text neighbour still resolve to its rightmost fragment), right
+// as the neighbour's own id. nil: no neighbour on that side.
+type treeAnchors struct{ left, right *crdt.TreeNodeID }
+
+type treeAnchorTrack struct {
+	seen map[string]*treeAnchors // "<peer>/<createdAt>:<offset>"
+}
+
+func treeNodeKey(idx int, n *crdt.TreeNode) string {
+	return fmt.Sprintf("%d/%s:%d", idx, n.ID().CreatedAt.Key(), n.ID().Offset)
+}
+
+// observe records the neighbours of every node of p's tree that is removed now
+// and was not seen removed before. Runs of nodes removed together share the
+// run's external boundaries.
+func (t *treeAnchorTrack) observe(p *Peer) {
+	tr, ok := p.D.InternalDocument().Root().Object().Get("tr").(*crdt.Tree)
+	if !ok || tr == nil {
+		return
+	}
+	var walk func(n *crdt.TreeNode)
+	walk = func(n *crdt.TreeNode) {
+		kids := n.Index.Children(true)
+		for i := 0; i < len(kids); {
+			c := kids[i].Value
+			if !c.IsRemoved() || t.seen[treeNodeKey(p.Idx, c)] != nil {
+				// (the first record is kept when a node is revived and removed
+				// again: the operation's spans are captured once and only flipped)
+				i++
+				continue
+			}
+			// maximal run of newly removed siblings starting at i
+			j := i
+			for j < len(kids) && kids[j].Value.IsRemoved() && t.seen[treeNodeKey(p.Idx, kids[j].Value)] == nil {
+				j++
+			}
+			a := &treeAnchors{}
+			if i > 0 {
+				l := kids[i-1].Value
+				if l.IsText() {
+					a.left = &crdt.TreeNodeID{CreatedAt: l.ID().CreatedAt, Offset: l.ID().Offset + l.Length() - 1}
+				} else {
+					a.left = l.ID()
+				}
+			}
+			if j < len(kids) {
+				a.right = kids[j].Value.ID()
+			}
+			for k := i; k < j; k++ {
+				t.seen[treeNodeKey(p.Idx, kids[k].Value)] = a
+			}
+			i = j
+		}
+		for _, k := range kids {
+			walk(k.Value)
+		}
+	}
+	walk(tr.Root())
+}
+
+func (t *treeAnchorTrack) forDoc(r *Runner, d *document.Document) func(n *crdt.TreeNode) *treeAnchors {
+	idx := -1
+	for _, q := range r.Peers {
+		if q.D == d {
+			idx = q.Idx
+		}
+	}
+	return func(n *crdt.TreeNode) *treeAnchors {
+		if idx < 0 {
+			return nil
+		}
+		return t.seen[treeNodeKey(idx, n)]
 	}
 }
